@@ -1320,6 +1320,33 @@ class Item:
         self.rewrite(s0, bs, "{ let mut vx_it = vx_into_iter(%s);\n  let mut vx_out = Vec::new();/*@pre*/\n  loop\n  /*@loop*/\n  {\n    let Some(%s) = vx_it.next() else { break; };/*@body*/\n    let vx_e = " % (recv, p), "R3-flat-map-collect")
         self.rewrite(be, cend, ";\n    vx_extend(&mut vx_out, vx_e);/*@tail*/\n  }\n  vx_out }", "R3-flat-map-collect")
 
+    def r3_flat_map_collect_set_expr(self, fn, k):
+        """the k-th expression `RECV.iter().flat_map(|P| BODY).collect()` of fn collected into a SET (RECV a slice / Vec expression, BODY
+        yields a HashSet; no early exits), in any expression position  ==>  the definition of flat_map + collect::<HashSet<_>>():
+        { let vx_s = RECV; let mut vx_out = HashSet::new(); let mut vx_i = 0; while vx_i < vx_s.len() { let P = &vx_s[vx_i];
+          let vx_e = BODY; vx_insert_all(&mut vx_out, &vx_e); vx_i += 1; } vx_out }      (RECV and BODY stay in place; vx_insert_all: set union,
+        a shim of the unit; names get the suffix k for k > 1)"""
+        k0, _, bo, end, _ = self.fn_span(fn)
+        hits = list(re.finditer(r"\.\s*iter\s*\(\s*\)\s*\.\s*flat_map\s*\(", self.m[bo:end]))
+        if len(hits) < k:
+            raise Undecided("LOST-ANCHOR: R3 flat-map-collect-set-expr #%d in fn %s of %s" % (k, fn, self.where()))
+        h = hits[k - 1]
+        par = bo + h.end() - 1
+        p, bs, be, close = self._closure_after(par)
+        if re.search(r"\breturn\b|\?", self.m[bs:be]):
+            raise Undecided("R3 flat-map-collect-set-expr: the closure body leaves early (return / ?)")
+        mc = re.match(r"\s*\.\s*collect\s*\(\s*\)", self.m[close + 1:])
+        if not mc:
+            raise Undecided("R3 flat-map-collect-set-expr: `.collect()` expected after the closure")
+        cend = close + 1 + mc.end()
+        s0 = self._chain_start(bo + h.start())
+        sfx = "" if k == 1 else str(k)
+        self.rewrite(s0, s0, "{ let vx_s%s = " % sfx, "R3-flat-map-collect-set")
+        self.rewrite(bo + h.start(), bs, ";\n        let mut vx_out%s = HashSet::new();\n        let mut vx_i%s: usize = 0;/*@pre*/\n        while vx_i%s < vx_s%s.len()\n        /*@loop*/\n        {\n          let %s = &vx_s%s[vx_i%s];/*@body*/\n          let vx_e%s = "
+                     % (sfx, sfx, sfx, sfx, p, sfx, sfx, sfx), "R3-flat-map-collect-set")
+        self.rewrite(be, cend, ";\n          vx_insert_all(&mut vx_out%s, &vx_e%s);/*@tail*/\n          vx_i%s = vx_i%s + 1;\n        }\n        vx_out%s }"
+                     % (sfx, sfx, sfx, sfx, sfx), "R3-flat-map-collect-set")
+
     def r3_position_expr(self, fn, k):
         """tail expression `RECV.iter().position(|P| BODY)`  ==>  index loop returning the first index whose BODY holds:
         { let mut vx_pos = None; let mut vx_i = 0; while vx_i < RECV.len() { let P = &RECV[vx_i]; let vx_b = BODY;
